@@ -376,3 +376,115 @@ def families(lang, tier, tokens, max_pairs=None):
                     ws = list(default)
                     ws[i] = w
                     yield name, t, ws
+
+
+# ---------------------------------------------------------------- C12, reader part
+READ_FORMATS = {'en': ['auto', 'xml', 'jigg_xml', 'ptb'], 'ja': ['auto', 'jigg_xml', 'ptb', 'ja']}
+HAS_HEAD_FIELD = {'auto'}
+
+
+def read_back(lang, fmt, trees, scratch):
+    """print trees in fmt through depccg and read them with depccg's reader of that format; returns list of ReaderResult"""
+    from depccg.tools.reader import read_auto, read_xml, read_jigg_xml, read_ptb
+    from depccg.tools.ja.reader import read_ccgbank
+    from depccg.printer.ja import ja_of
+    set_lang(lang)
+    nbest = [[ScoredTree(tr, -1.0)] for tr in trees]
+    if fmt == 'ja':
+        text = '\n'.join(ja_of(tr) for tr in trees) + '\n'
+    else:
+        text = render(copy.deepcopy(nbest) if fmt == 'jigg_xml' else nbest, fmt)
+    ext = {'auto': 'auto', 'xml': 'xml', 'jigg_xml': 'jigg.xml', 'ptb': 'ptb', 'ja': 'ja'}[fmt]
+    path = os.path.join(scratch, f'r{os.getpid()}.{ext}')
+    with open(path, 'w', encoding='utf-8') as f:
+        f.write(text)
+    reader = {'auto': read_auto, 'xml': read_xml, 'jigg_xml': read_jigg_xml, 'ptb': read_ptb, 'ja': read_ccgbank}[fmt]
+    return list(reader(path))
+
+
+def judge_read_labels(st, lang, fmt, t, res_tree):
+    from depccg.grammar import en, ja
+    fn = en.apply_binary_rules if lang == 'en' else ja.apply_binary_rules
+
+    def rec(n):
+        if n.is_leaf:
+            return
+        if n.is_unary:
+            rec(n.child)
+            return
+        opts = [r for r in fn(n.left_child.cat, n.right_child.cat) if K.key(r.cat) == K.key(n.cat)]
+        base = dict(engine='reader', lang=lang, fmt=fmt, tree=repr(t), node=f'{n.left_child.cat}  {n.right_child.cat} -> {n.cat}')
+        if opts:
+            st.count('reader_nodes_derivable')
+            if fmt == 'ja':
+                ok = any(r.op_symbol == n.op_symbol for r in opts)       # the bank format stores the symbol only
+            else:
+                ok = any((r.op_string, r.op_symbol) == (n.op_string, n.op_symbol) for r in opts)
+            if not ok:
+                st.violation(f'reader/{fmt}/label', f'{fmt}: node {base["node"]} is derived by {[(r.op_string, r.op_symbol) for r in opts]} but carries {(n.op_string, n.op_symbol)}', **base)
+            elif fmt not in HAS_HEAD_FIELD and not any(bool(r.head_is_left) == bool(n.head_is_left) for r in opts):
+                st.violation(f'reader/{fmt}/head', f'{fmt}: node {base["node"]} carries head_is_left={n.head_is_left}, the deriving rule says {[r.head_is_left for r in opts]}', **base)
+        else:
+            st.count('reader_nodes_underivable')
+        rec(n.left_child)
+        rec(n.right_child)
+    rec(res_tree)
+
+
+def c12_reader_shard(sh):
+    lang, fmt, tier, lo, hi = sh
+    st = core.Stats()
+    scratch = f'/dev/shm/verif.c12.{os.getpid()}'
+    os.makedirs(scratch, exist_ok=True)
+    try:
+        lic, _ = T.licensed_sample(lang, 3, 2 if tier == 'quick' else 12)
+        sel = lic[lo:hi]
+        for b in core.chunked(sel, 40):
+            trees = [make_tree(t, [f'w{i}' for i in range(T.n_leaves(t))], lang) for t in b]
+            try:
+                got = read_back(lang, fmt, trees, scratch)
+            except Exception as e:
+                got = None
+            if got is None or len(got) != len(b):
+                for t, tr in zip(b, trees):
+                    try:
+                        g1 = read_back(lang, fmt, [tr], scratch)
+                        st.count('reader_trees')
+                        judge_read_labels(st, lang, fmt, t, g1[0].tree)
+                    except Exception as e:
+                        st.violation(f'reader/{fmt}/read_error', f'{fmt}: reader failed on depccg output: {e!r}', engine='reader', lang=lang, fmt=fmt, tree=repr(t))
+                continue
+            for t, res in zip(b, got):
+                st.count('reader_trees')
+                judge_read_labels(st, lang, fmt, t, res.tree)
+    finally:
+        import shutil
+        shutil.rmtree(scratch, ignore_errors=True)
+    return st
+
+
+def c12_reader_part(tier, seed):
+    shards = []
+    for lang in ('en', 'ja'):
+        lic, _ = T.licensed_sample(lang, 3, 2 if tier == 'quick' else 12)
+        for fmt in READ_FORMATS[lang]:
+            step = max(60, len(lic) // 12)
+            shards += [(lang, fmt, tier, lo, min(len(lic), lo + step)) for lo in range(0, len(lic), step)]
+    return core.pmap(c12_reader_shard, core.rotate(shards, seed))
+
+
+def replay(rec):
+    import ast, shutil
+    st = core.Stats()
+    t = ast.literal_eval(rec['tree'])
+    scratch = f'/dev/shm/verif.c12.{os.getpid()}'
+    os.makedirs(scratch, exist_ok=True)
+    try:
+        tr = make_tree(t, [f'w{i}' for i in range(T.n_leaves(t))], rec['lang'])
+        got = read_back(rec['lang'], rec['fmt'], [tr], scratch)
+        judge_read_labels(st, rec['lang'], rec['fmt'], t, got[0].tree)
+    finally:
+        shutil.rmtree(scratch, ignore_errors=True)
+    for k, v in st.viol.items():
+        print('REPRODUCED', k, v[0]['what'][:500])
+    return 1 if st.viol else 0
